@@ -187,7 +187,23 @@ func (vc *VC) applyContract(st *State, c *Contract, key string, sig *types.Signa
 			if err != nil {
 				sfail("call %s: panics when %q: %v", key, pw.Src, err)
 			}
-			vc.oblige(st, "callee-panic", fmt.Sprintf("%s.%d#%d", shortKey(key), i, site), not(t), key+" panics when "+pw.Src)
+			// a panic of the callee is allowed only where the caller declares one itself
+			allowed := Term("false")
+			if vc.contract != nil && len(vc.contract.PanicsWhen) > 0 {
+				pe := vc.baseEnv(vc.entry)
+				pe.old = nil
+				var alts []Term
+				for _, cpw := range vc.contract.PanicsWhen {
+					ct, err := pe.EvalBool(cpw.E)
+					if err != nil {
+						sfail("panics when %q: %v", cpw.Src, err)
+					}
+					alts = append(alts, ct)
+				}
+				allowed = or(alts...)
+			}
+			vc.oblige(st, "callee-panic", fmt.Sprintf("%s.%d#%d", shortKey(key), i, site), implies(t, allowed), key+" panics when "+pw.Src)
+			vc.assume(st, not(t))
 		}
 	}
 	// effects
@@ -282,6 +298,9 @@ func (e *Env) evalModLoc(x Expr) modTarget {
 	vc := e.vc
 	switch n := x.(type) {
 	case *ECall:
+		if n.Fn == "ghost" {
+			return modTarget{loc: e.ghostLoc(n)}
+		}
 		if n.Fn == "region" {
 			b := e.eval(n.Args[0])
 			lo := e.eval(n.Args[1])
@@ -399,7 +418,7 @@ func (vc *VC) havocTarget(st *State, tg modTarget) {
 			h := vc.heapGet(st, name, srt)
 			nh := vc.heapHavoc(st, name)
 			vc.heapTypingAxioms(st, name)
-			arr, off := tg.sl.Sl[0], tg.sl.Sl[1]
+			arr, off := vc.patAtom(tg.sl.Sl[0], "Int"), tg.sl.Sl[1]
 			lo, hi := app("+", off, tg.lo), app("+", off, tg.hi)
 			vc.axiom(fmt.Sprintf("(forall ((a Int)) (! (=> (not (= a %s)) (= (select %s a) (select %s a))) :pattern ((select %s a))))", arr, nh, h, nh))
 			vc.axiom(fmt.Sprintf("(forall ((i Int)) (! (=> (not (and (<= %s i) (< i %s))) (= (select (select %s %s) i) (select (select %s %s) i))) :pattern ((select (select %s %s) i))))",
@@ -463,6 +482,7 @@ func (vc *VC) frameConds(st *State) []frameCond {
 		if cur == base {
 			continue
 		}
+		cur = vc.patAtom(cur, vc.compSort[comp])
 		meta := vc.compMeta[comp]
 		if meta.part == "map" {
 			// maps: object-level frame
@@ -477,7 +497,7 @@ func (vc *VC) frameConds(st *State) []frameCond {
 		i := fmt.Sprintf("fi!%d", vc.counter)
 		var excl []Term
 		switch meta.kind {
-		case LField, LDeref:
+		case LField, LDeref, LGhost:
 			for _, t := range targets {
 				if t.region {
 					continue
@@ -728,7 +748,7 @@ func (vc *VC) appendBuiltin(st *State, c *ssa.CallCommon, args []Val, rt types.T
 	ncap := vc.fresh("appcap")
 	vc.declare(ncap, "Int")
 	vc.assume(st, and(app("<=", newLen, ncap), app("<=", ncap, bigNum(pow2(maxLenBits)))))
-	rArr := vc.define("apparr", "Int", ite(fits, s.Sl[0], freshArr))
+	rArr := vc.patAtom(ite(fits, s.Sl[0], freshArr), "Int")
 	rOff := vc.define("appoff", "Int", ite(fits, s.Sl[1], "0"))
 	rCap := vc.define("appcap", "Int", ite(fits, s.Sl[3], ncap))
 	// a nil slice with nothing appended stays nil
@@ -737,6 +757,10 @@ func (vc *VC) appendBuiltin(st *State, c *ssa.CallCommon, args []Val, rt types.T
 		return s
 	}
 	l := &Loc{Kind: LElem, T: et}
+	small := -1
+	if !srcIsStr && isNumeral(n) && len(n) == 1 {
+		small = int(n[0] - '0')
+	}
 	for _, lf := range leavesOf(et) {
 		name, srt := vc.regComp(l, lf)
 		h := vc.heapGet(st, name, srt)
@@ -746,7 +770,23 @@ func (vc *VC) appendBuiltin(st *State, c *ssa.CallCommon, args []Val, rt types.T
 		} else {
 			srcAt = func(j Term) Term { return sel(sel(h, src.Sl[0]), app("+", src.Sl[1], j)) }
 		}
-		// single-element fast path: source is a fresh one-element array literal
+		inner := "(Array Int " + lf.Sort + ")"
+		if small >= 0 {
+			// few elements: explicit stores, no quantified definition of the new heap
+			inPlace := sel(h, s.Sl[0])
+			na := vc.fresh("appcopy")
+			vc.declare(na, inner)
+			vc.axiom(fmt.Sprintf("(forall ((i Int)) (! (=> (and (<= 0 i) (< i %s)) (= (select %s i) (select (select %s %s) (+ %s i)))) :pattern ((select %s i))))",
+				s.Sl[2], na, h, s.Sl[0], s.Sl[1], na))
+			moved := Term(na)
+			for j := 0; j < small; j++ {
+				x := srcAt(num(int64(j)))
+				inPlace = store(inPlace, app("+", app("+", s.Sl[1], s.Sl[2]), num(int64(j))), x)
+				moved = store(moved, app("+", s.Sl[2], num(int64(j))), x)
+			}
+			vc.heapSet(st, name, srt, ite(fits, store(h, s.Sl[0], inPlace), store(h, freshArr, moved)))
+			continue
+		}
 		nh := vc.heapHavoc(st, name)
 		vc.heapTypingAxioms(st, name)
 		// other arrays unchanged
@@ -789,13 +829,14 @@ func (vc *VC) copyBuiltin(st *State, c *ssa.CallCommon, args []Val, rt types.Typ
 		return Val{T: rt, K: KInt, S: "0"}
 	}
 	cnt := vc.define("copyn", "Int", ite(app("<=", dst.Sl[2], n), dst.Sl[2], n))
+	dstArr := vc.patAtom(dst.Sl[0], "Int")
 	l := &Loc{Kind: LElem, T: et}
 	for _, lf := range leavesOf(et) {
 		name, srt := vc.regComp(l, lf)
 		h := vc.heapGet(st, name, srt)
 		nh := vc.heapHavoc(st, name)
 		vc.heapTypingAxioms(st, name)
-		vc.axiom(fmt.Sprintf("(forall ((a Int)) (! (=> (not (= a %s)) (= (select %s a) (select %s a))) :pattern ((select %s a))))", dst.Sl[0], nh, h, nh))
+		vc.axiom(fmt.Sprintf("(forall ((a Int)) (! (=> (not (= a %s)) (= (select %s a) (select %s a))) :pattern ((select %s a))))", dstArr, nh, h, nh))
 		i := "i"
 		rel := app("-", i, dst.Sl[1])
 		var srcAt Term
@@ -806,7 +847,7 @@ func (vc *VC) copyBuiltin(st *State, c *ssa.CallCommon, args []Val, rt types.Typ
 		}
 		in := and(app("<=", dst.Sl[1], i), app("<", i, app("+", dst.Sl[1], cnt)))
 		vc.axiom(fmt.Sprintf("(forall ((i Int)) (! (= (select (select %s %s) i) %s) :pattern ((select (select %s %s) i))))",
-			nh, dst.Sl[0], ite(in, srcAt, sel(sel(h, dst.Sl[0]), i)), nh, dst.Sl[0]))
+			nh, dstArr, ite(in, srcAt, sel(sel(h, dstArr), i)), nh, dstArr))
 	}
 	return Val{T: rt, K: KInt, S: cnt}
 }
